@@ -57,11 +57,12 @@ type access struct {
 }
 
 type Sched struct {
-	sync     map[string]*syncState
-	cells    map[string][]access
-	abort    *pathEnd
-	abortGP  *goPanic
-	switches int
+	sync        map[string]*syncState
+	cells       map[string][]access
+	abort       *pathEnd
+	abortGP     *goPanic
+	switches    int
+	preemptions int
 }
 
 func (it *Interp) initThreads() {
@@ -140,7 +141,16 @@ func (it *Interp) schedPoint() {
 	}
 	var next *Thread
 	if it.cfg.Sched == "all" {
-		next = it.pick(ordered)
+		// preemption bounding (CHESS): switching away from a thread that could continue is a preemption;
+		// at most cfg.Preemptions of them per path. Switches at blocking operations / thread exit are free.
+		if ordered[0] == it.cur && it.sched.preemptions >= it.cfg.Preemptions {
+			next = it.cur
+		} else {
+			next = it.pick(ordered)
+			if ordered[0] == it.cur && next != it.cur {
+				it.sched.preemptions++
+			}
+		}
 	} else {
 		// deterministic: prefer other threads (run children eagerly) so workers actually interleave with main
 		next = ordered[len(ordered)-1]
